@@ -14,7 +14,8 @@ TABLE_CONSTRUCTS = []
 RULE = ("histories = up to 10 agents of classes A(mesa.Agent), B(A), C(B), D(A) with small int attributes a0..a2 (ties; "
         "a1/a2 missing on some agents), an initial AgentSet (all / subset / permuted / with duplicates / empty) in slot 0 of a "
         "pool of 6 slots, then <= 25 operations select/sort/shuffle (in-place or copying into another slot), groupby, "
-        "groupby().groups[k], get, set, agg, map, add, discard, remove, in, len, [i], [i:j], iter on any filled slot; "
+        "groupby().groups[k], get, set, agg, map, add, discard, remove, in, len, [i], [i:j], iter, pop, clear, index, count, "
+        "reversed on any filled slot; "
         "at_most from {0,1,2,|s|-1,|s|,|s|+1,inf,0.0,k/2^j,1.0}; non-trivial = at least 3 operations of which one returns "
         "a non-empty answer and at least two slots are filled at the end; distinct = by SHA1 of the history")
 TRUSTED_BASE = [
@@ -155,11 +156,21 @@ def _rand_op(rng, filled, n):
         return ["len", s]
     if r < 0.98:
         return ["index", s, rng.randint(-n - 1, n + 1)]
-    if r < 0.995:
+    if r < 0.985:
         lo = rng.choice([None, rng.randint(-n - 1, n + 1)])
         hi = rng.choice([None, rng.randint(-n - 1, n + 1)])
         return ["slice", s, lo, hi]
-    return ["iter", s]
+    if r < 0.988:
+        return ["iter", s]
+    if r < 0.992:
+        return ["pop", s]
+    if r < 0.993:
+        return ["clear", s]
+    if r < 0.996:
+        return ["indexof", s, aid]
+    if r < 0.998:
+        return ["count", s, aid]
+    return ["reversed", s]
 
 
 def _rand_case(rng, nmax=10, maxops=25):
@@ -232,7 +243,8 @@ def _corner_cases():
     yield {"seed": 6, "agents": ags, "init": [3, 1, 3, 2, 1], "ops": [
         ["iter", 0], ["add", 0, 1], ["add", 0, 5], ["add", 0, 5], ["discard", 0, 4], ["remove", 0, 4], ["remove", 0, 3], ["remove", 0, 3],
         ["contains", 0, 3], ["contains", 0, 5], ["index", 0, -1], ["index", 0, 3], ["index", 0, -4], ["slice", 0, 1, -1], ["slice", 0, -2, None],
-        ["slice", 0, 2, 1], ["len", 0]]}
+        ["slice", 0, 2, 1], ["len", 0], ["indexof", 0, 2], ["indexof", 0, 4], ["count", 0, 2], ["count", 0, 4], ["reversed", 0],
+        ["pop", 0], ["pop", 0], ["clear", 0], ["pop", 0], ["clear", 0], ["reversed", 0]]}
     # copies are detached from the original and from one another
     yield {"seed": 7, "agents": ags, "init": ids, "ops": [
         ["select", 0, None, ["inf"], None, False, 1], ["select", 0, None, ["inf"], None, True, 2], ["remove", 1, 2], ["add", 1, 2], ["shuffle", 1, True, 0],
@@ -645,7 +657,7 @@ def run_impl(case):
                 elif res != e[1]:
                     fail(i, "C03/map/wrong-values", f"{op} on {ids(before)}: got {res}, list semantics gives {e[1]}")
                 ret = [len(res)] + list(res)
-            elif kind in ("add", "discard", "remove", "contains"):
+            elif kind in ("add", "discard", "remove", "contains", "indexof", "count"):
                 a = byid.get(op[2])
                 if a is None:
                     ops_for_model.append(mop)
@@ -668,11 +680,24 @@ def run_impl(case):
                         st.remove(a)
                     shadow[s], touched = [x for x in before if x is not a], s
                     ret = []
-                else:
+                elif kind == "contains":
                     r = a in st
                     if r != present:
                         fail(i, "C03/contains/wrong", f"{op} on {ids(before)}: `in` gives {r}")
                     ret = [1 if r else 0]
+                elif kind == "indexof":
+                    e = _attempt(lambda: before.index(a))
+                    r = st.index(a)
+                    if e[0] != "ok":
+                        fail(i, "C03/index/absent-agent-accepted", f"{op} on {ids(before)}: index of an absent agent gives {r}")
+                    elif r != e[1]:
+                        fail(i, "C03/index/wrong", f"{op} on {ids(before)}: got {r}, list gives {e[1]}")
+                    ret = [r]
+                else:
+                    r = st.count(a)
+                    if r != before.count(a):
+                        fail(i, "C03/count/wrong", f"{op} on {ids(before)}: got {r}")
+                    ret = [r]
             elif kind == "len":
                 r = len(st)
                 if r != len(before):
@@ -697,6 +722,23 @@ def run_impl(case):
                 if r != before:
                     fail(i, "C03/iter/wrong", f"{op} on {ids(before)}: got {ids(r)}")
                 ret = ids(r)
+            elif kind == "reversed":
+                r = list(reversed(st))
+                if r != before[::-1]:
+                    fail(i, "C03/reversed/wrong", f"{op} on {ids(before)}: got {ids(r)}")
+                ret = ids(r)
+            elif kind == "pop":
+                r = st.pop()
+                if not before:
+                    fail(i, "C03/pop/empty-set-accepted", f"{op}: pop on an empty set returned {r}")
+                elif r is not before[0]:
+                    fail(i, "C03/pop/not-the-first-member", f"{op} on {ids(before)}: popped {r.unique_id}")
+                shadow[s], touched = before[1:], s
+                ret = [r.unique_id]
+            elif kind == "clear":
+                st.clear()
+                shadow[s], touched = [], s
+                ret = []
             else:
                 raise ValueError(kind)
         except Exception as e:  # noqa: BLE001
@@ -720,6 +762,10 @@ def run_impl(case):
                 expected = op[4] not in (0, 1)
             elif k == E_VALUE and kind == "agg":
                 expected = op[3] in ("min", "max") and not before
+            elif k == E_KEY and kind == "pop":
+                expected = not before
+            elif k == E_VALUE and kind == "indexof":
+                expected = byid[op[2]] not in before
             elif k == E_INDEX and kind == "index":
                 expected = not (-len(before) <= op[2] < len(before))
             if expected:
@@ -839,8 +885,12 @@ def _c_op(op):
     if k == "map":
         f = f"(MKey {_c_key(op[2][1])})" if op[2][0] == "key" else f"(MMeth {L.z(op[2][1])})"
         return f"Map {s} {f}"
-    if k in ("add", "discard", "remove", "contains"):
+    if k in ("add", "discard", "remove", "contains", "count"):
         return f"{k.capitalize()} {s} {L.z(op[2])}"
+    if k == "indexof":
+        return f"IndexOf {s} {L.z(op[2])}"
+    if k in ("pop", "clear", "reversed"):
+        return f"{k.capitalize()} {s}"
     if k == "len":
         return f"Len {s}"
     if k == "index":
